@@ -52,6 +52,8 @@ def make_data(rng: random.Random) -> dict:
         "key": rng.choice(["name", "age", "missing", "first"]),
         "idx": rng.choice([0, 1, -1, 7]),
         "pname": rng.choice(PARTIAL_NAMES),
+        "kobj": {"__liquid__": rng.choice(["name", "age", "tags", "missing"])},
+        "iobj": {"__liquid__": rng.choice([0, 1, -1, 5])},
         **({} if rng.random() < 0.5 else {
             # render-context variables read by the Babel filters
             "locale": rng.choice(["en_US", "de", "fr_CA", "ja"]),
@@ -104,7 +106,9 @@ class ProgGen:
         if self.locals and r.random() < 0.3:
             return r.choice(self.locals)
         if r.random() < 0.14:
-            return r.choice(["products[idx].title", "user[key]", "user.tags[n]", "h[key]", "products[n].tags[idx]",
+            return r.choice(["user[kobj]", "h[kobj]", "products[iobj].title", "nums[iobj]", "user.tags[iobj]", "words[iobj]",
+                             "cfgd.items", "shared.list", "cfgd.items[0]", "shared.n", "cfgd.k",
+                             "products[idx].title", "user[key]", "user.tags[n]", "h[key]", "products[n].tags[idx]",
                              "nested[n][idx]", "h.list[n]", "products[user.tags.size].title", "user[h.b]",
                              "products[products.size].title", "words[nums[1]]", "h[user.first]"])
         return r.choice(base)
@@ -134,7 +138,7 @@ class ProgGen:
                "user.tags.size", "products.last.price", "idx")
     AP_PATHS = ("products",)
     AS_PATHS = ("user.tags", "words", "products[0].tags")
-    AN_PATHS = ("nums", "h.list", "(1..3)", "(1..n)")
+    AN_PATHS = ("nums", "h.list", "(1..3)", "(1..n)", "cfgd.items", "shared.list")
 
     def typed_base(self) -> tuple[str, str]:
         r = self.rng
